@@ -296,10 +296,136 @@ pub fn run(ctx: &Ctx, st: &mut Stats) -> Vec<Violation> {
     if out.is_empty() {
         st.exhaustive_parts.push("ALL: 14 x 13 x 18 = 3276 fully specified (matrix, primaries, transfer) triples x 12 conversions (6 forward/reverse pairs), each under 14 (subsampling, range, image content) shapes".into());
     }
+    let mut out = out;
+    if out.is_empty() {
+        out.extend(pairwise_interference(ctx, st));
+    }
+    if out.is_empty() {
+        out.extend(size_axis(ctx, st));
+    }
     out
 }
 
+/// Two-step histories over the metadata: for every ordered pair of (matrix, primaries) configurations, the
+/// second conversion is run right after the first on the same thread and must give what it gives in
+/// isolation (computed on a fresh thread). Exhaustive over all (14 x 13)^2 ordered pairs, both directions.
+fn pairwise_interference(ctx: &Ctx, st: &mut Stats) -> Vec<Violation> {
+    let mut cfgs: Vec<(MC, CP)> = Vec::new();
+    for m in ALL_MC {
+        for p in ALL_CP {
+            if m != MC::Unspecified && p != CP::Unspecified {
+                cfgs.push((m, p));
+            }
+        }
+    }
+    let sh = Shape { ss: (0, 0), full: false, img: 0 };
+    // results in isolation: one fresh thread per configuration
+    let iso: Vec<[Out; 2]> = cfgs
+        .iter()
+        .map(|&(m, p)| std::thread::spawn(move || [run_conv(0, m, p, TC::BT1886, sh), run_conv(1, m, p, TC::BT1886, sh)]).join().unwrap_or([Err(CE::UnsupportedMatrixCoefficients), Err(CE::UnsupportedMatrixCoefficients)]))
+        .collect();
+    let n = cfgs.len() as u64;
+    let out = par_sweep(ctx, st, n, |lo, hi, st| {
+        for a in lo..hi {
+            let (ma, pa) = cfgs[a as usize];
+            for (b, &(mb, pb)) in cfgs.iter().enumerate() {
+                for conv in 0..2usize {
+                    let r = catch(|| {
+                        let _ = run_conv(conv, ma, pa, TC::BT1886, sh);
+                        run_conv(conv, mb, pb, TC::BT1886, sh)
+                    });
+                    let same = match (&r, &iso[b][conv]) {
+                        (Ok(Ok(x)), Ok(y)) => x == y,
+                        (Ok(Err(x)), Err(y)) => x == y,
+                        _ => false,
+                    };
+                    if !same {
+                        return Some(Violation {
+                            signature: format!("C14:interference:{}", CONV_NAMES[conv]),
+                            message: format!(
+                                "{} with (matrix={:?}, primaries={:?}) gives {:?} right after the same conversion with (matrix={:?}, primaries={:?}) on the same thread, but {:?} in isolation",
+                                CONV_NAMES[conv], mb, pb, r.as_ref().map(|x| x.as_ref().map(|v| v[..v.len().min(4)].to_vec())), ma, pa, iso[b][conv].as_ref().map(|v| v[..v.len().min(4)].to_vec())
+                            ),
+                            case: json!({"prop":"C14","part":"pair","first":names(ma, pa, TC::BT1886),"second":names(mb, pb, TC::BT1886),"conv":conv}),
+                        });
+                    }
+                }
+            }
+            st.evaluations += 1;
+            st.comparisons += 2 * n;
+            st.nontrivial_by_construction += 1;
+            st.class("interference_rows", 1);
+        }
+        None
+    });
+    if out.is_empty() {
+        st.exhaustive_parts.push("all (14 x 13)^2 = 33,124 ordered pairs of (matrix, primaries) configurations x YUV->RGB and RGB->YUV: second conversion right after the first vs in isolation".into());
+    }
+    out
+}
+
+/// The gamma<->linear and RGB<->XYB error contract on real-size images (error paths of size-gated code)
+fn size_axis(ctx: &Ctx, st: &mut Stats) -> Vec<Violation> {
+    let sizes: Vec<(usize, usize)> = if ctx.quick() { vec![(257, 255), (2049, 2049)] } else { vec![(257, 255), (2049, 2049), (3841, 2161)] };
+    let bad_p = [CP::Reserved0, CP::Reserved, CP::BT709];
+    let bad_t = [TC::Reserved0, TC::Reserved, TC::BT1361E, TC::ST428, TC::SRGB];
+    let mut jobs = Vec::new();
+    for &(w, h) in &sizes {
+        for p in bad_p {
+            for t in bad_t {
+                jobs.push((w, h, p, t));
+            }
+        }
+    }
+    par_sweep(ctx, st, jobs.len() as u64, |lo, hi, st| {
+        for j in lo..hi {
+            let (w, h, p, t) = jobs[j as usize];
+            let n = w * h;
+            let r = catch(|| {
+                let fwd = LinearRgb::try_from(Rgb::new(vec![[0.25f32, 0.5, 0.75]; n], w, h, t, p).unwrap()).map(|_| ());
+                let rev = Rgb::try_from((LinearRgb::new(vec![[0.25f32, 0.5, 0.75]; n], w, h).unwrap(), t, p)).map(|_| ());
+                let fx = Xyb::try_from(Rgb::new(vec![[0.25f32, 0.5, 0.75]; n], w, h, t, p).unwrap()).map(|_| ());
+                let rx = Rgb::try_from((Xyb::new(vec![[0.0f32, 0.3, 0.3]; n], w, h).unwrap(), t, p)).map(|_| ());
+                (fwd, rev, fx, rx)
+            });
+            let mk = |msg: String| Violation {
+                signature: "C14:size-axis".into(),
+                message: format!("{msg} [{w}x{h} image, primaries={:?} transfer={:?}]", p, t),
+                case: json!({"prop":"C14","part":"size","w":w,"h":h,"triple":names(MC::BT709, p, t)}),
+            };
+            match r {
+                Err(pn) => return Some(mk(format!("panic: {pn}"))),
+                Ok((fwd, rev, fx, rx)) => {
+                    let sup = SUP_CP.contains(&p) && SUP_TC.contains(&t);
+                    if fwd != rev {
+                        return Some(mk(format!("gamma->linear gives {:?} but linear->gamma gives {:?}", fwd, rev)));
+                    }
+                    if fx.is_ok() != rx.is_ok() || fwd.is_ok() != sup || fx.is_ok() != sup {
+                        return Some(mk(format!("support differs from the contract: gamma<->linear {:?}/{:?}, RGB<->XYB {:?}/{:?}", fwd, rev, fx, rx)));
+                    }
+                }
+            }
+            st.evaluations += 1;
+            st.comparisons += 4;
+            st.nontrivial_by_construction += 1;
+            st.class("size_axis_cases", 1);
+        }
+        None
+    })
+}
+
 pub fn replay(v: &Value) -> Result<(), String> {
+    if matches!(v.get("part").and_then(|p| p.as_str()), Some("pair") | Some("size")) {
+        // these parts are enumerations: re-run them
+        let ctx = Ctx { id: "C14".into(), tier: Tier::Quick, seed: 0, threads: 8, known_open: vec![], build: "fast".into(), light: false };
+        let mut st = Stats::new();
+        let mut v2 = pairwise_interference(&ctx, &mut st);
+        v2.extend(size_axis(&ctx, &mut st));
+        return match v2.into_iter().next() {
+            Some(x) => Err(x.message),
+            None => Ok(()),
+        };
+    }
     let t = v.get("triple").ok_or("triple")?;
     let c = cfg_from_json(&json!({"depth":8,"ss_x":0,"ss_y":0,"full":false,"matrix":t.get("matrix"),"transfer":t.get("transfer"),"primaries":t.get("primaries")})).ok_or("bad triple")?;
     let _ = cfg_json(&c);
@@ -309,4 +435,4 @@ pub fn replay(v: &Value) -> Result<(), String> {
     check_triple(c.matrix_coefficients, c.color_primaries, c.transfer_characteristics, Shape { ss, full, img }, &mut Stats::new()).map_err(|v| v.message)
 }
 
-pub const RULE: &str = "complete enumeration (both tiers): every fully specified (MatrixCoefficients, ColorPrimaries, TransferCharacteristic) triple (14 x 13 x 18 = 3276) x 12 conversions on a 4x4 image, repeated for 14 shapes: subsampling 4:4:4, 4:2:0, 4:2:2, 4:1:0 (2,2), 4:4:0 x limited/full x image content {colourful in-gamut, achromatic (grey pixels / neutral chroma), out-of-gamut floats / extreme codes} (YUV<->RGB in u8 and u16 storage, gamma<->linear, YUV<->linear, YUV<->XYB, RGB<->XYB). Oracle: no panic; the 7 x 11 x 14 supported triples succeed everywhere; an error is an Unsupported* variant naming a field the conversion uses and that is responsible (counterfactual: replacing only that field by BT.709/BT.1886 removes that error); forward Ok iff reverse Ok; YUV<->RGB and gamma<->linear pairs fail with the same error; with a standard matrix YUV<->RGB output is bit-identical for all transfer/primaries values. The triples of each shape are visited in one of four orders (transfer, primaries or matrix varying fastest, shuffled). A case = one (triple, shape) (all 12 conversions and their counterfactuals); non-trivial = triple outside the all-supported set; distinct by construction";
+pub const RULE: &str = "complete enumeration (both tiers): every fully specified (MatrixCoefficients, ColorPrimaries, TransferCharacteristic) triple (14 x 13 x 18 = 3276) x 12 conversions on a 4x4 image, repeated for 14 shapes: subsampling 4:4:4, 4:2:0, 4:2:2, 4:1:0 (2,2), 4:4:0 x limited/full x image content {colourful in-gamut, achromatic (grey pixels / neutral chroma), out-of-gamut floats / extreme codes} (YUV<->RGB in u8 and u16 storage, gamma<->linear, YUV<->linear, YUV<->XYB, RGB<->XYB). Oracle: no panic; the 7 x 11 x 14 supported triples succeed everywhere; an error is an Unsupported* variant naming a field the conversion uses and that is responsible (counterfactual: replacing only that field by BT.709/BT.1886 removes that error); forward Ok iff reverse Ok; YUV<->RGB and gamma<->linear pairs fail with the same error; with a standard matrix YUV<->RGB output is bit-identical for all transfer/primaries values. The triples of each shape are visited in one of four orders (transfer, primaries or matrix varying fastest, shuffled). In addition: all 33,124 ordered pairs of (matrix, primaries) configurations as two-step histories (the second conversion right after the first vs in isolation on a fresh thread), and the gamma<->linear / RGB<->XYB contract on real-size images (up to 2049x2049; thorough 3841x2161). A case = one (triple, shape) (all 12 conversions and their counterfactuals); non-trivial = triple outside the all-supported set; distinct by construction";
